@@ -161,21 +161,29 @@ def step (st : St) (args : List String) : St × String :=
       else if op = "glist" then
         if !held then (st, "err\terr") else
         let mine := (x.led.issued.filter (fun e => e.2.1 = w))
-        let names := mine.foldl (fun acc e => if acc.contains e.1 then acc else acc ++ [e.1]) ([] : List String)
-        let m := names.flatMap (fun n => [false, true].filterMap (fun stk =>
+        -- one entry per name: the class it was (last) issued in
+        let names := mine.foldl (fun acc e => AMap.put acc e.1 e.2.2) ([] : AMap.T String Bool)
+        let m := names.flatMap (fun (n, cls) => [false, true].filterMap (fun stk =>
           let f := Led.addrFlag x.led.store w n stk
-          if f = "missing" then none else some s!"{n}:{if stk then "stk" else "std"}:{f}"))
-        let sp := mine.flatMap (fun e =>
-          let u := Spec.Chain.addrUsed x.led.specChain e.1
-          let own := s!"{e.1}:{if e.2.2 then "stk" else "std"}:{if u then 1 else 0}"
-          if e.2.2 && u && !(mine.any (fun e' => e'.1 = e.1 && !e'.2.2)) then [own, s!"{e.1}:std:1"] else [own])
+          if f = "missing" || (stk ≠ cls && f ≠ "1") then none else some s!"{n}:{if stk then "stk" else "std"}:{f}"))
+        -- spec: the standard form is used iff the chain pays the script hash in any form, the staking
+        -- form iff it pays it in staking form; the form not issued is listed only when used
+        let sp := names.flatMap (fun (n, cls) =>
+          let uStd := Spec.Chain.addrUsed x.led.specChain n
+          let uStk := x.led.specChain.any (fun b => b.txs.any (fun t => t.outs.any (fun o => o.addr = n && o.cls.isStaking)))
+          (if !cls || uStd then [s!"{n}:std:{if uStd then 1 else 0}"] else []) ++
+          (if cls || uStk then [s!"{n}:stk:{if uStk then 1 else 0}"] else []))
         (st, joinSorted m ++ "\t" ++ joinSorted sp)
       else if op = "found" then
         match AMap.get x.ks.mgrs w with
         | none => (st, "err\terr")
         | some m =>
           let mo := (namesOf m).filter (usedOn x)
-          let sp := ((st.ever.filter (fun e => e.1 = w)).map (·.2)).filter (usedOn x)
+          -- every external address ever issued / restored anywhere from this secret that has history
+          -- here, and the change addresses this wallet holds
+          let isExt (n : String) : Bool := (n.splitOn ".")[1]? = some "0"
+          let ext := ((st.ever.filter (fun e => e.1 = w && isExt e.2)).map (·.2)).filter (usedOn x)
+          let sp := ext ++ (mo.filter (fun n => !isExt n))
           (st, joinSorted mo ++ "\t" ++ joinSorted sp)
       else if op = "unlock" then
         match loadPriv x.ks w (privPass w) with
